@@ -147,7 +147,9 @@ class Ctx:
             r.actions[name] = (a[0] + int(d), a[1] + int(g))
         # Machinery failures: parse errors, Java exceptions, TLC bugs
         if r.rc not in (0, 10, 11, 12, 13) or "Parsing or semantic analysis failed" in r.stdout:
-            tail = "\n".join(r.stdout.splitlines()[-40:])
+            ls = r.stdout.splitlines()
+            k = next((i for i, x in enumerate(ls) if x.startswith("Error:")), max(0, len(ls) - 40))
+            tail = "\n".join(ls[k:k + 25])
             raise MachineryError(f"TLC failed (rc={r.rc}) on {module}/{cfg}:\n{tail}")
         if count:
             self.states += r.distinct
